@@ -4,7 +4,7 @@ import NaijaVerif.Lemmas.AnalysisRel
 T2, no-trap half: under the laws `Lawful` about the primitive operations (what the runtime's
 operator / builtin match arms guarantee on the operand types the *fixed* classification insists on),
 an expression classed `PureNoTrap` that calls no user function evaluates to a value, unless the fuel
-runs out or a variable it reads has no slot (`Bad`).  Together with the state half this is `Quiet`.
+runs out or a variable it reads has no slot (`Bad2`).  Together with the state half this is `Quiet`.
 -/
 namespace NaijaVerif.C03
 open NaijaVerif NaijaVerif.Analysis NaijaVerif.AEval
@@ -26,6 +26,8 @@ structure Lawful (P : Prims V) (ty : V → LTy → Prop) : Prop extends TablesAg
   logicRhs : ∀ b tb, ty b tb → (tb = .bool ∨ tb = .null) → ∃ v, P.logicRhs b = .ok v ∧ ty v .bool
   pureGlobal : ∀ name a, globalClass name = some .pureNoTrap → name ≠ commandName → ∃ v, P.global name [a] = .ok v
   command : ∀ a, ty a .str → ∃ v, P.global commandName [a] = .ok v
+  /-- the `if` / `jasi` test accepts a boolean or null (fix D-03f: the only conditions classed `PureNoTrap`) -/
+  cond : ∀ v, ty v .bool ∨ ty v .null → ∃ b, P.cond v = .ok b
 
 mutual
   /-- Every call of a global builtin has exactly one argument (the resolver rejects anything else). -/
@@ -62,15 +64,15 @@ def TypedAll (ty : V → LTy → Prop) : List Expr → List V → Prop
 
 structure NoTrap (P : Prims V) (ty : V → LTy → Prop) (capt : Nat → Bool) (cfg : Cfg) (n : Nat) : Prop where
   expr : ∀ (e : Expr) (st : St V), Safe capt e →
-    (∃ v, (evalExpr P cfg n e st).1 = .ok v ∧ ∀ t, literalTy e = some t → ty v t) ∨ Bad (evalExpr P cfg n e st).1
+    (∃ v, (evalExpr P cfg n e st).1 = .ok v ∧ ∀ t, literalTy e = some t → ty v t) ∨ Bad2 (evalExpr P cfg n e st).1
   list : ∀ (es : List Expr) (st : St V), SafeList capt es →
-    (∃ vs, (evalList P cfg n es st).1 = .ok vs ∧ TypedAll ty es vs) ∨ Bad (evalList P cfg n es st).1
+    (∃ vs, (evalList P cfg n es st).1 = .ok vs ∧ TypedAll ty es vs) ∨ Bad2 (evalList P cfg n es st).1
 
 section
 variable {P : Prims V} {ty : V → LTy → Prop} {capt : Nat → Bool} {cfg : Cfg} {n : Nat}
 
 theorem nt_list (ih : NoTrap P ty capt cfg n) : ∀ (es : List Expr) (st : St V), SafeList capt es →
-    (∃ vs, (evalList P cfg (n + 1) es st).1 = .ok vs ∧ TypedAll ty es vs) ∨ Bad (evalList P cfg (n + 1) es st).1
+    (∃ vs, (evalList P cfg (n + 1) es st).1 = .ok vs ∧ TypedAll ty es vs) ∨ Bad2 (evalList P cfg (n + 1) es st).1
   | [], st, _ => Or.inl ⟨[], by simp [evalList], trivial⟩
   | e :: es, st, ⟨hc, hn, ha⟩ => by
       simp only [classifyList] at hc
@@ -111,7 +113,7 @@ theorem nt_generic (ih : NoTrap P ty capt cfg n) (e : Expr) (st : St V) (hs : Sa
       readAll P.dscope env (interpIds e) = some rs →
       ∃ v, P.node e (vs ++ rs) = .ok v ∧ ∀ t, literalTy e = some t → ty v t) :
     (∃ v, (finishNode P e (evalList P cfg n (children e) st)).1 = .ok v ∧ ∀ t, literalTy e = some t → ty v t) ∨
-      Bad (finishNode P e (evalList P cfg n (children e) st)).1 := by
+      Bad2 (finishNode P e (evalList P cfg n (children e) st)).1 := by
   rcases ih.list (children e) st hs with ⟨vs, hvs, hts⟩ | hb
   · generalize evalList P cfg n (children e) st = r at hvs ⊢
     obtain ⟨x, s1⟩ := r
@@ -141,7 +143,7 @@ theorem nt_logic (L : Lawful P ty) (ih : NoTrap P ty capt cfg n) (op : BinOp) (l
                 match evalExpr P cfg n r st1 with
                 | (.error e, st2) => (.error e, st2)
                 | (.ok rv, st2) => (P.logicRhs rv, st2)).1 = .ok v ∧ ty v .bool) ∨
-    Bad (match evalExpr P cfg n l st with
+    Bad2 (match evalExpr P cfg n l st with
             | (.error e, st1) => ((.error e, st1) : R V V)
             | (.ok lv, st1) =>
                 if stop lv then (.ok (P.logicShort op), st1) else
@@ -212,7 +214,7 @@ theorem nt_binary_generic (L : Lawful P ty) (ih : NoTrap P ty capt cfg n) (op : 
     (st : St V) (hlog : Analysis.isLogic op = false) (hs : Safe capt (.binary op l r sp)) :
     (∃ v, (finishNode P (.binary op l r sp) (evalList P cfg n (children (.binary op l r sp)) st)).1 = .ok v ∧
         ∀ t, literalTy (.binary op l r sp) = some t → ty v t) ∨
-      Bad (finishNode P (.binary op l r sp) (evalList P cfg n (children (.binary op l r sp)) st)).1 := by
+      Bad2 (finishNode P (.binary op l r sp) (evalList P cfg n (children (.binary op l r sp)) st)).1 := by
   obtain ⟨hc, hn, ha⟩ := hs
   obtain ⟨hd, hm, hcl, hcr, ta, tb, t, hta, htb, hlb, hlt⟩ := binary_noTrap hc
   simp only [noUserCall, Bool.and_eq_true] at hn
@@ -235,7 +237,7 @@ theorem nt_binary_generic (L : Lawful P ty) (ih : NoTrap P ty capt cfg n) (op : 
 
 theorem nt_expr (L : Lawful P ty) (ih : NoTrap P ty capt cfg n) : ∀ (e : Expr) (st : St V), Safe capt e →
     (∃ v, (evalExpr P cfg (n + 1) e st).1 = .ok v ∧ ∀ t, literalTy e = some t → ty v t) ∨
-      Bad (evalExpr P cfg (n + 1) e st).1
+      Bad2 (evalExpr P cfg (n + 1) e st).1
   | .var _ bd _, st, _ => by
       simp only [evalExpr]
       cases bd.bind (fun id => lookupEnv P.dscope id st.env) with
